@@ -12,6 +12,8 @@ import glob
 import io
 import json
 import os
+import subprocess
+import sys
 
 import dns.edns
 import dns.exception
@@ -1219,6 +1221,189 @@ def spec_for(c, t):
 # ------------------------------------------------------------------------------------------------
 # evaluation
 # ------------------------------------------------------------------------------------------------
+# ------------------------------------------------------------------------------------------------
+# dispatch: which codec `dns.rdata.get_rdata_class` / `from_wire` / `from_text` choose for a (class, type) pair,
+# in a fresh interpreter, in several global configurations (load_all_types mutates module state)
+# ------------------------------------------------------------------------------------------------
+DISPATCH_MODES = ["default", "load_all", "load_all_dynamic", "register"]
+DISPATCH_CLASSES = [1, 3, 4, 255, 254, 65280]
+DISPATCH_SCRIPT = r"""
+import sys, json
+req = json.load(sys.stdin)
+sys.path.insert(0, req["repo"])
+import dns.rdata, dns.rdataclass, dns.rdatatype, dns.name, dns.exception, dns.rdtypes.txtbase
+mode = req["mode"]
+extra = []
+def cname(k):
+    return k.__module__ + ":" + k.__name__
+if mode == "load_all":
+    dns.rdata.load_all_types()
+elif mode == "load_all_dynamic":
+    dns.rdata.load_all_types(disable_dynamic_load=False)
+elif mode == "register":
+    class PRIVX(dns.rdtypes.txtbase.TXTBase):
+        pass
+    class PRIVY(dns.rdtypes.txtbase.TXTBase):
+        pass
+    dns.rdata.register_type(PRIVX, 65280, "PRIVX")
+    dns.rdata.register_type(PRIVY, 65281, "PRIVY", rdclass=dns.rdataclass.ANY)
+    for args in ((PRIVX, 65280, "PRIVX"), (PRIVX, 15, "MX"), (PRIVY, 65281, "PRIVY", False, dns.rdataclass.ANY), (PRIVX, 41, "OPT")):
+        try:
+            dns.rdata.register_type(*args)
+            extra.append("registered")
+        except dns.rdata.RdatatypeExists:
+            extra.append("RdatatypeExists")
+        except Exception as e:
+            extra.append("ERR:" + type(e).__name__)
+    for c, t in ((1, 65280), (3, 65280), (255, 65280), (1, 65281), (3, 65281), (4, 65281), (65280, 65281)):
+        extra.append(cname(dns.rdata.get_rdata_class(dns.rdataclass.RdataClass.make(c), dns.rdatatype.RdataType.make(t))))
+    for c, t in ((1, 65280), (3, 65281)):
+        w = bytes.fromhex("0161024142")
+        rd = dns.rdata.from_wire(c, t, w, 0, len(w))
+        rd2 = dns.rdata.from_text(c, t, rd.to_text())
+        extra.append(cname(type(rd)) + " " + rd.to_wire().hex() + " " + str(rd2 == rd) + " " + dns.rdatatype.to_text(dns.rdatatype.RdataType.make(t)))
+classes = []
+for c, t in req["pairs"]:
+    try:
+        k = dns.rdata.get_rdata_class(dns.rdataclass.RdataClass.make(c), dns.rdatatype.RdataType.make(t))
+        classes.append(cname(k))
+    except Exception as e:
+        classes.append("ERR:" + type(e).__name__)
+samples = []
+for c, t, w, o in req["samples"]:
+    origin = None if o is None else dns.name.Name([bytes.fromhex(x) for x in o])
+    w = bytes.fromhex(w)
+    try:
+        rd = dns.rdata.from_wire(c, t, w, 0, len(w), origin)
+        row = [cname(type(rd)), rd.to_digestable(origin).hex(), rd.to_wire(origin=origin).hex()]
+    except Exception as e:
+        row = ["ERR:" + type(e).__name__, "", ""]
+    if o is None:
+        try:
+            rt = dns.rdata.from_text(c, t, "\\# %d %s" % (len(w), w.hex()))
+            row.append(cname(type(rt)))
+        except Exception as e:
+            row.append("ERR:" + type(e).__name__)
+    else:
+        row.append("-")
+    samples.append(row)
+print(json.dumps({"classes": classes, "samples": samples, "extra": extra}))
+"""
+REGISTER_EXPECTED = [
+    "RdatatypeExists", "RdatatypeExists", "RdatatypeExists", "RdatatypeExists",
+    "__main__:PRIVX", "dns.rdata:GenericRdata", "dns.rdata:GenericRdata", "__main__:PRIVY", "__main__:PRIVY", "__main__:PRIVY", "__main__:PRIVY",
+    "__main__:PRIVX 0161024142 True PRIVX", "__main__:PRIVY 0161024142 True PRIVY",
+]
+_MODULE_FILES = None
+
+
+def expected_codec(c, t):
+    """the documented dispatch rule read off the directory tree: dns/rdtypes/<CLASS>/<TYPE>.py, then ANY, then generic"""
+    global _MODULE_FILES
+    if _MODULE_FILES is None:
+        import harness.extract_C02 as ex
+
+        _MODULE_FILES = set(ex.module_files())
+    if (c, t) in _MODULE_FILES:
+        return (c, t)
+    if (ANY, t) in _MODULE_FILES:
+        return (ANY, t)
+    return None
+
+
+def codec_line(name):
+    """`module:class` -> the driver's `<directory class> <mnemonic>`"""
+    if name == "dns.rdata:GenericRdata":
+        return "g GENERIC"
+    mod, _, cls = name.partition(":")
+    parts = mod.split(".")
+    if len(parts) == 4 and parts[:2] == ["dns", "rdtypes"]:
+        d = {"ANY": ANY, "IN": 1, "CH": 3}.get(parts[2], parts[2])
+        return f"{d} {cls}"
+    return name
+
+
+def run_dispatch(mode, pairs, samples):
+    from harness.core import REPO
+
+    req = {"repo": REPO, "mode": mode, "pairs": pairs, "samples": samples}
+    p = subprocess.run([sys.executable, "-c", DISPATCH_SCRIPT], input=json.dumps(req).encode(), capture_output=True, timeout=300)
+    if p.returncode != 0:
+        return None, p.stderr.decode()[-600:]
+    return json.loads(p.stdout.decode().strip().split("\n")[-1]), ""
+
+
+def eval_dispatch(ctx: Ctx, case: dict):
+    mode, pairs, samples = case["mode"], case["pairs"], case["samples"]
+    rep = {"kind": "dispatch", "case": case}
+    res, err = run_dispatch(mode, pairs, samples)
+    if res is None:
+        ctx.fail(f"C02/dispatch/{mode}/crash", f"dispatch probe in a fresh interpreter failed in mode {mode}: {err}", rep)
+        return
+    ctx.count("dispatch.mode." + mode)
+    for (c, t), name in zip(pairs, res["classes"]):
+        one = {"kind": "dispatch", "mode": mode, "pairs": [[c, t]], "samples": []}
+        line = codec_line(name)
+        if not (mode == "register" and t in (65280, 65281)):
+            ctx.corr(f"c02.dispatch {c} {t}", line, one)
+        exp = expected_codec(c, t)
+        want = "g GENERIC" if exp is None else None
+        if exp is not None:
+            want_dir = exp[0]
+            ok = line.split(" ")[0] == str(want_dir) and not line.startswith("g ")
+        else:
+            ok = line == want or (mode == "register" and t in (65280, 65281))
+        ctx.count("dispatch.pairs")
+        if not ok:
+            ctx.fail(f"C02/dispatch/{mode}/wrong-codec/{'generic' if exp is None else str(exp[0]) + '-' + str(exp[1])}",
+                     f"get_rdata_class({c}, {t}) in mode {mode} chose {name}; the module tree says "
+                     f"{'GenericRdata' if exp is None else 'dns/rdtypes/' + {255: 'ANY', 1: 'IN', 3: 'CH'}.get(exp[0], str(exp[0]))}", {"kind": "dispatch", "case": one})
+    for (c, t, w, o), row, exp_row in zip(samples, res["samples"], case.get("expect", [])):
+        one = {"kind": "dispatch", "mode": mode, "pairs": [], "samples": [[c, t, w, o]], "expect": [exp_row]}
+        ctx.count("dispatch.samples")
+        if row[0] != exp_row[0] or (row[3] not in ("-", exp_row[0])):
+            ctx.fail(f"C02/dispatch/{mode}/wrong-codec-from_wire/{c}-{t}",
+                     f"from_wire/from_text({c}, {t}, {w}) in mode {mode} built {row[0]} / {row[3]}, expected {exp_row[0]}", {"kind": "dispatch", "case": one})
+        elif row[1] != exp_row[1] or row[2] != exp_row[2]:
+            ctx.fail(f"C02/dispatch/{mode}/record-differs/{c}-{t}",
+                     f"from_wire({c}, {t}, {w}) in mode {mode}: canonical form / re-encoding differ from the record decoded in the default configuration", {"kind": "dispatch", "case": one})
+    if mode == "register":
+        if res["extra"] != REGISTER_EXPECTED:
+            ctx.fail("C02/dispatch/register/outcome", f"register_type sequence gave {res['extra']}", rep)
+
+
+def gen_dispatch(ctx: Ctx, rng):
+    impl = implemented()
+    pairs = [[c, t] for (_, t) in impl for c in DISPATCH_CLASSES]
+    for t in [0, 3, 7, 100, 251, 255, 1000, 65279, 65534]:
+        pairs += [[c, t] for c in (1, 3, 255)]
+    samples, expect = [], []
+    for key in impl:
+        spec = SPECS.get(key)
+        if spec is None:
+            continue
+        for _ in range(2):
+            c = rng.choice([3, 4, 254, 65280, 1, 255]) if key[0] == ANY else key[0]
+            if key[1] == 41:
+                c = rng.choice([512, 1232, 4096])
+            o = rng.choice([None, None, ["4578", "636f4d", ""]])
+            env = {"origin": mkorigin(o)}
+            try:
+                tree = spec.gen(rng, env)
+                cls = dns.rdata.get_rdata_class(dns.rdataclass.RdataClass.make(c), dns.rdatatype.RdataType.make(key[1]))
+                rd = spec.build(cls, c, key[1], tree)
+                w = rd.to_wire(origin=env["origin"])
+                rd2 = dns.rdata.from_wire(c, key[1], w, 0, len(w), env["origin"])
+                samples.append([c, key[1], w.hex(), o])
+                expect.append([type(rd2).__module__ + ":" + type(rd2).__name__, rd2.to_digestable(env["origin"]).hex(), rd2.to_wire(origin=env["origin"]).hex()])
+            except Exception:  # noqa: BLE001
+                continue
+    for mode in DISPATCH_MODES:
+        case = {"kind": "dispatch", "mode": mode, "pairs": rng.shuffle(pairs), "samples": samples, "expect": expect}
+        ctx.case(("dispatch", mode, len(pairs)), sample=None)
+        eval_dispatch(ctx, case)
+
+
 def mkorigin(o):
     return None if o is None else dns.name.Name([bytes.fromhex(x) for x in o])
 
@@ -1256,6 +1441,9 @@ def eval_case(ctx: Ctx, case: dict):
 
 def _eval_case(ctx: Ctx, case: dict):
     k = case["kind"]
+    if k == "dispatch":
+        eval_dispatch(ctx, case)
+        return
     c, t = case["cls"], case["typ"]
     rep = {"kind": k, "case": case}
     origin = mkorigin(case.get("origin"))
@@ -1594,6 +1782,7 @@ def generate(ctx: Ctx, scale, rng):
         if (other, key[1]) in impl or (ANY, key[1]) in impl:
             continue
         gen_type(ctx, rng, (ANY, key[1]), GENERIC, int(3 * scale) + 1, int(6 * scale) + 1, generic_code=(rng.choice([other, 4, 254]), key[1]))
+    gen_dispatch(ctx, rng)
     ctx.extra["per_type_status"] = status
     ctx.extra["types_implemented"] = len(impl)
     ctx.extra["types_modelled"] = len([k for k in impl if k in SPECS])
